@@ -245,10 +245,16 @@ fn canary(inv: &Inv, pred: &model::Prediction, out: &run::Outcome, fired: &run::
     let opened: BTreeSet<&str> = out.trace.iter().filter(|e| e.sym == "openr").map(|e| e.target.as_str()).collect();
     match &inv.shape {
         Shape::Files { mode, .. } if *mode != Mode::InplaceCheck => {
-            for i in &pred.inputs {
-                if matches!(i.class, InputClass::Formatted | InputClass::Unformatted | InputClass::Erroneous) && !opened.contains(i.named.as_str()) && pred.level == Level::Full {
-                    return Some(format!("no read-open of input {:?} in the trace", i.named));
-                }
+            // (only liveness of the seam: an implementation may legitimately read a path that is
+            // listed twice only once)
+            let readable: Vec<&str> = pred
+                .inputs
+                .iter()
+                .filter(|i| matches!(i.class, InputClass::Formatted | InputClass::Unformatted | InputClass::Erroneous))
+                .map(|i| i.named.as_str())
+                .collect();
+            if !readable.is_empty() && pred.level == Level::Full && !readable.iter().any(|n| opened.contains(n)) {
+                return Some(format!("no read-open of any of the inputs {:?} in the trace", readable));
             }
         }
         Shape::FormatAll { .. } => {
